@@ -193,9 +193,11 @@ class solve_torchfcn(torch.autograd.Function):
             with ctx.A.uselinopparams(*params):
                 loss = -ctx.A.mm(x)  # (*BABEM, nr, ncols)
 
-        grad_params = torch.autograd.grad((loss,), params, grad_outputs=(v,),
-                                          create_graph=torch.is_grad_enabled(),
-                                          allow_unused=True)
+        grad_params = ()  # an operator may have no parameter at all
+        if len(params) > 0:
+            grad_params = torch.autograd.grad((loss,), params, grad_outputs=(v,),
+                                              create_graph=torch.is_grad_enabled(),
+                                              allow_unused=True)
 
         # calculate the biases gradient
         grad_E = None
@@ -211,7 +213,7 @@ class solve_torchfcn(torch.autograd.Function):
 
         # calculate the gradient to the biases matrices
         grad_mparams = [None] * len(mparams)  # M is ignored if E is not supplied
-        if ctx.M is not None and E is not None:
+        if ctx.M is not None and E is not None and len(mparams) > 0:
             with torch.enable_grad():
                 mparams = [p.clone().requires_grad_() for p in mparams]
                 lmbdax = x * E.unsqueeze(-2)
